@@ -188,10 +188,21 @@ Definition int_cell_ok (c : Q * Q * Z) : bool :=
   if a =? Qfloor (snd (fst c) + (1 # 2)) then snd c =? a else true.
 Definition int_ok (cells : list (Q * Q * Z)) : bool := forallb int_cell_ok cells.
 
+(* "a motif compared with a set containing itself attains its best score at offset 0 with full overlap":
+   for a target whose columns are the query's own columns, the integerised similarities the kernel
+   produced must make relative offset 0 a maximiser of the complete score, with overlap nq
+   (which offset is REPORTED among several maximisers stays open, see [attains]) *)
+Definition self_ok (c : call) (start : nat) : bool :=
+  if wf c then
+    let nq := q_nq (c_q c) in
+    (best_ref c start nq =? score_at c start nq 0) && (overlap_at c nq 0 =? Z.of_nat nq)
+  else true.
+
 Inductive case :=
 | KQuery (with_model : bool) (c : call) (o : outcome)   (* with_model = false: reference only (large inputs) *)
 | KMono (band : Z) (d2 xs : list Z)
 | KInt (cells : list (Q * Q * Z))                       (* (lo, hi, x) per recomputed cell *)
+| KSelf (c : call) (start : nat)                         (* the target starting at [start] equals the query *)
 | KRaised                                               (* an in-scope tomtom(...) call raised *)
 | KMany (l : list case).                                (* the queries of one tomtom(...) call *)
 
@@ -201,6 +212,7 @@ Fixpoint check_case (k : case) : nat :=
   | KQuery false c o => verdict true (spec_ok c o)
   | KMono band d2 xs => verdict true (mono_ok band d2 xs)
   | KInt cells => verdict true (int_ok cells)
+  | KSelf c start => verdict true (self_ok c start)
   | KRaised => 2%nat
   | KMany l => (fix go (l : list case) : nat :=
                   match l with [] => 0%nat | x :: t => Nat.max (check_case x) (go t) end) l
